@@ -979,6 +979,10 @@ func (fr *frame) execBinOp(x *ssa.BinOp, a, b Val, alive string, safety safetyFn
 func (fr *frame) eqTerm(tx, ty types.Type, a, b Val) string {
 	vc := fr.vc
 	if a.ip != nil || b.ip != nil {
+		// the address of a field or element is never nil
+		if (a.ip != nil && b.ip == nil && b.t == "0") || (b.ip != nil && a.ip == nil && a.t == "0") {
+			return "false"
+		}
 		vc.unsupported["comparison of interior pointers"] = true
 		return vc.fresh("ipcmp", sortBool)
 	}
